@@ -330,7 +330,7 @@ def judge_single_error(rep, bld, dia, it):
     res = aslrun.assemble(bld, {"a.asm": src}, opts=["-q"], timeout=20)
     if er.crashed(res):
         report(rep, "assembler crashed (rc=%s sig=%s) evaluating" % (res.rc, res.sig), it, dia, src, "crash")
-    elif res.rc != 2 or not er.error_lines(res):
+    elif res.rc not in (2, 3) or not er.error_lines(res):      # 3 = fatal error with a message (e.g. "internal error")
         report(rep, "error expected: exit status %s, error lines %s for" % (res.rc, sorted(er.error_lines(res))),
                it, dia, src, "value" if res.p else "silent")
     elif res.p is not None:
